@@ -363,7 +363,13 @@ class NumpyFloatToFixConverter(object):
         # **NOTE** for some reason just casting resulted in shape
         # being zeroed on some indeterminate selection of OSes,
         # architectures, Python and Numpy versions"
-        return np.array(vals, copy=True, dtype=self.dtype)
+        fixed = np.array(vals, copy=True, dtype=self.dtype)
+
+        # The largest 64-bit values cannot be represented exactly as floats:
+        # the upper clipping bound is rounded up and would overflow (wrap) in
+        # the conversion to integers, so saturate explicitly.
+        fixed[vals >= self.max_value] = self.max_value
+        return fixed
 
 
 class NumpyFixToFloatConverter(object):
